@@ -24,6 +24,9 @@ static tinfo_t info[MAXPOOL];
 static int nt;
 static int BIG = 9;
 static int D = 4, ND = 2, NSH = 3;
+static int VP = 0;      /* --vp: schedule through the real __parsec_schedule_vp (next_task retention, dispatch to stream 0) and select the way
+                         * __parsec_get_next_task does (es->next_task first); submitter index K = NULL (communication thread) */
+#define NSUB (VP ? K + 1 : K)
 static const char SHN[] = { '1', '2', '3', 'B', 'C' };
 static int shape_order[5] = { 0, 1, 3, 4, 2 };     /* the first NSH entries are used: 1,2,B, then C, then 3 */
 static int NOPS;
@@ -33,13 +36,13 @@ static int shape_len(int sh) { switch (sh) { case 0: return 1; case 1: return 2;
 static void decode(int op, int *is_sel, int *es, int *sh, int *d)
 {
     if (op < K) { *is_sel = 1; *es = op; return; }
-    op -= K; *is_sel = 0; *d = op % ND; op /= ND; *sh = shape_order[op % NSH]; *es = op / NSH;
+    op -= K; *is_sel = 0; *d = op % ND; op /= ND; *sh = shape_order[op % NSH]; *es = op / NSH;      /* es == K: NULL submitter (vp mode) */
 }
 static void opname(int op, char *b, size_t cap)
 {
     if (op == NOPS) { snprintf(b, cap, "drain"); return; }
     int s, e, sh, d; decode(op, &s, &e, &sh, &d);
-    if (s) snprintf(b, cap, "sel%d", e); else snprintf(b, cap, "s%d:%c@%d", e, SHN[sh], d);
+    if (s) snprintf(b, cap, "sel%d", e); else snprintf(b, cap, "%c%d:%c@%d", VP ? 'v' : 's', e, SHN[sh], d);
 }
 
 /* per-sequence statistics */
@@ -58,13 +61,18 @@ static int check_returned(parsec_task_t *t, int on, char *err)
     out_add(on, id);
     return 0;
 }
+static parsec_task_t *get_next(int i)
+{
+    if (VP && ES[i]->next_task) { parsec_task_t *t = ES[i]->next_task; ES[i]->next_task = NULL; return t; }   /* as __parsec_get_next_task */
+    return c08_select(i);
+}
 static int do_drain(char *err)
 {
     int quiet = 0, rounds = 0, npend = 0;
     for (int i = 0; i < nt; i++) npend += info[i].pending;
     while (quiet < 2 && rounds < npend + 8) {
         int got = 0;
-        for (int i = 0; i < K; i++) { parsec_task_t *t = c08_select(i); if (t) { got++; if (check_returned(t, i, err)) return 1; } }
+        for (int i = 0; i < K; i++) { parsec_task_t *t = get_next(i); if (t) { got++; if (check_returned(t, i, err)) return 1; } }
         quiet = got ? 0 : quiet + 1; rounds++;
     }
     int lost = 0, first = -1; for (int i = 0; i < nt; i++) if (info[i].pending) { lost++; if (first < 0) first = i; }
@@ -74,6 +82,7 @@ static int do_drain(char *err)
 static void *fresh(void)
 {
     c08_reinstall(); srand(12345);
+    for (int i = 0; i < K; i++) ES[i]->next_task = NULL;
     nt = 0; saw_overflow = saw_steal = saw_dist = 0; outcome_h = 1469598103934665603ULL;
     return &nt;
 }
@@ -83,7 +92,7 @@ static int apply(void *o, int op, char *err)
     (void)o;
     if (op == NOPS) return do_drain(err);
     int s, e, sh, d; decode(op, &s, &e, &sh, &d);
-    if (s) { parsec_task_t *t = c08_select(e); if (!t) out_add(e, -1); return check_returned(t, e, err); }
+    if (s) { parsec_task_t *t = get_next(e); if (!t) out_add(e, -1); return check_returned(t, e, err); }
     int n = shape_len(sh);
     if (nt + n > MAXPOOL) { snprintf(err, SX_ERRLEN, "harness: task pool exhausted"); return 1; }
     parsec_task_t *r[MAXPOOL > 600 ? 600 : MAXPOOL];
@@ -99,25 +108,30 @@ static int apply(void *o, int op, char *err)
         parsec_task_t *t = pool[id];
         t->priority = prio; t->task_class = high ? &c08_tc_high : &c08_tc_plain;
         t->data[0].data_in = (parsec_data_copy_t *)(uintptr_t)(0x1000 + 64 * group);
-        info[id].pending = 1; info[id].sched_on = e; info[id].dist = d; r[k] = t;
+        info[id].pending = 1; info[id].sched_on = (VP && (d > 0 || e >= K)) ? 0 : e; info[id].dist = d; r[k] = t;
     }
     if (d > 0) saw_dist = 1;
-    C08_SCHEDULE(e, c08_ring(r, n), d);
+    if (VP) { parsec_task_t *rings[1] = { c08_ring(r, n) }; int rc = __parsec_schedule_vp(e < K ? ES[e] : NULL, rings, d);
+              if (rc != 0 || rings[0] != NULL) { snprintf(err, SX_ERRLEN, "%s: __parsec_schedule_vp returned %d / left a ring behind", c08_modname, rc); return 1; } }
+    else C08_SCHEDULE(e, c08_ring(r, n), d);
     int ov = c08_overflow_count(); if (ov > 0) { saw_overflow = 1; if (ov > max_overflow) max_overflow = ov; }
     return 0;
 }
 
 int main(int argc, char **argv)
 {
-    const char *name = "lfq"; int k = 2;
+    const char *name = "lfq"; int k = 2; int cfg[8][4], ncfg = 0;
     for (int i = 1; i < argc; i++) {
         if (!strcmp(argv[i], "--sched") && i + 1 < argc) name = argv[++i];
         else if (!strcmp(argv[i], "--streams") && i + 1 < argc) k = atoi(argv[++i]);
         else if (!strcmp(argv[i], "--depth") && i + 1 < argc) D = atoi(argv[++i]);
         else if (!strcmp(argv[i], "--ndist") && i + 1 < argc) ND = atoi(argv[++i]);
+        else if (!strcmp(argv[i], "--vp")) VP = 1;
         else if (!strcmp(argv[i], "--nshapes") && i + 1 < argc) NSH = atoi(argv[++i]);
+        else if (!strcmp(argv[i], "--config") && i + 1 < argc && ncfg < 8) { cfg[ncfg][3] = 0; if (sscanf(argv[++i], "%d:%d:%d:%d", &cfg[ncfg][0], &cfg[ncfg][1], &cfg[ncfg][2], &cfg[ncfg][3]) < 3) { fprintf(stderr, "bad --config\n"); return 2; } ncfg++; }
     }
-    if (D < 1 || D > 12 || ND < 1 || ND > 3 || NSH < 1 || NSH > 5) { fprintf(stderr, "bad arguments\n"); return 2; }
+    if (!ncfg) { cfg[0][0] = D; cfg[0][1] = NSH; cfg[0][2] = ND; cfg[0][3] = VP; ncfg = 1; }      /* --config depth:nshapes:ndist[:vp] (repeatable) */
+    for (int c = 0; c < ncfg; c++) if (cfg[c][0] < 1 || cfg[c][0] > 12 || cfg[c][2] < 1 || cfg[c][2] > 3 || cfg[c][1] < 1 || cfg[c][1] > 5) { fprintf(stderr, "bad arguments\n"); return 2; }
     sx_init(argc, argv, "C08");
     if (c08_init(name, k)) return 2;
     /* capacity of the chain of bounded buffers in front of the system dequeue (measured on the installed instance) */
@@ -126,10 +140,12 @@ int main(int argc, char **argv)
     else BIG = 4 * K + 1;
     if ((BIG + 3) * 1 > 600) { fprintf(stderr, "big ring too large (%d)\n", BIG); return 2; }
     for (int i = 0; i < MAXPOOL; i++) pool[i] = c08_new_task(0, 0, i);
-    NOPS = K + K * NSH * ND;
-    snprintf(scen, sizeof(scen), "seq_%s_k%d_sh%d_nd%d_depth%d", c08_modname, K, NSH, ND, D);
+  for (int c = 0; c < ncfg; c++) {
+    D = cfg[c][0]; NSH = cfg[c][1]; ND = cfg[c][2]; VP = cfg[c][3]; max_overflow = 0;
+    NOPS = K + NSUB * NSH * ND;
+    snprintf(scen, sizeof(scen), "seq_%s_k%d_sh%d_nd%d_depth%d%s", c08_modname, K, NSH, ND, D, VP ? "_vp" : "");
     sx_system_t sys = { scen, NOPS + 1, fresh, destroy, NULL, apply, NULL, opname, D, 0 };
-    if (sx_replay_file) { char sc[128], h[4096]; if (sx_read_replay(sx_replay_file, sc, sizeof(sc), h, sizeof(h))) return 2; return sx_replay_named(&sys, h); }
+    if (sx_replay_file && c == 0) { char sc[128], h[4096]; if (sx_read_replay(sx_replay_file, sc, sizeof(sc), h, sizeof(h))) return 2; return sx_replay_named(&sys, h); }
 
     double t0 = sx_now(); long execs = 0, trans = 0, nontriv = 0, nodes = 0; int completed = 0, exhaustive = 1, viol = 0;
     sx_set_t outcomes = {0}; char samples[3][512]; int ns = 0; char err[SX_ERRLEN];
@@ -164,5 +180,7 @@ int main(int argc, char **argv)
     const char *sp[3] = { samples[0], samples[1], samples[2] }; char extra[256];
     snprintf(extra, sizeof(extra), "\"depth_completed\":%d,\"max_depth\":%d,\"alphabet\":%d,\"streams\":%d,\"big_ring\":%d,\"max_tasks_in_system_queue\":%ld", completed, D, NOPS, K, BIG, max_overflow);
     sx_report(scen, nodes, trans, execs, nontriv, (long)outcomes.n, exhaustive, viol, sx_now() - t0, extra, sp, ns);
+    free(outcomes.v);
+  }
     return sx_finish();
 }
